@@ -20,7 +20,7 @@ LEVEL_NOTE = ("Models: coq/Model/Lifecycle.v (sessions, coarse accept), Model/Li
               "The session's protocol dialogue is abstracted to positions (greeted … DATA in flight / DELE marked / UPDATE); the full dialogues are "
               "C01/C03/C13's; an SMTP Quit in DATA is DEFINED to store the in-flight message first, a POP3 QUIT in TRANSACTION to pass through UPDATE. "
               "Not modelled: the kernel's listen backlog; timedExit's 15 s, which in the real binary bounds how long an open session 'can complete "
-              "its dialogue' after shutdown was requested (main() forces the exit then). The TLS handshake itself is not modelled, only its "
+              "its dialogue' after shutdown was requested (main() forces the exit then). The TLS handshake itself is not modelled (STLS is a session-internal step that keeps the protocol position; the `stls` stream performs real handshakes before and after the cancel), only its "
               "effect on the session count (a client failing the handshake of a ForceTLS POP3 server = accepted, started, ended). "
               "The tie between model and code is sampled.")
 TECHNIQUE = "machine-checked proof in Coq + model/code correspondence check"
@@ -44,7 +44,7 @@ EXEC_TIMEOUT = {"quick": 600, "thorough": 7200}
 
 
 def nontrivial(kind, ins, outs):
-    if kind in ("life", "tls", "lifet"):
+    if kind in ("life", "tls", "lifet", "stls"):
         ops = ins[0].split(",")
         if "k" not in ops:
             return False
@@ -61,7 +61,7 @@ def nontrivial(kind, ins, outs):
 
 def shrink_candidates(inp):
     parts = inp.split(" ")
-    if parts[0] not in ("life", "tls", "lifet") or len(parts) < 2 or parts[1] == "-":
+    if parts[0] not in ("life", "tls", "lifet", "stls") or len(parts) < 2 or parts[1] == "-":
         return
     ops = parts[1].split(",")
     for i in range(len(ops) - 1, -1, -1):
@@ -69,5 +69,5 @@ def shrink_candidates(inp):
         # dropping the opening of a session drops its later ops too
         if ops[i][0] in "oOA":
             sid = ops[i][1:].split(":")[0]
-            cand = [o for o in cand if not (o[0] in "pfaLqeb" and o[1:].split(":")[0] == sid)]
+            cand = [o for o in cand if not (o[0] in "pfaLqebt" and o[1:].split(":")[0] == sid)]
         yield parts[0] + " " + (",".join(cand) if cand else "-")
